@@ -83,7 +83,7 @@ def eager_sink_arg(ctx: Context, fn: FunctionInfo, c: ast.Call):
     return out
 
 
-def bounded_iter(it: ast.AST):
+def bounded_iter(it: ast.AST, fn: FunctionInfo | None = None):
     """for-loop iterable that is finite by construction with a
     configuration-only bound: range(cfg), zip(range(cfg), src),
     islice(src, cfg), optionally wrapped in list()/tuple()."""
@@ -107,6 +107,9 @@ def bounded_iter(it: ast.AST):
         bound = it.args[1]
     if bound is None:
         return False, ""
+    if fn is not None:
+        from sa import norm
+        bound = norm.expand(fn, bound)  # a hoisted bound: n = 2 * cfg + 2
     names = dotted_in(bound)
     return bool(names) and names <= CONFIG_NAMES, f"bounded by {short(bound)}"
 
@@ -259,7 +262,7 @@ def run(ctx: Context, rep) -> None:
             how = ""
             if not isinstance(lp, ast.While):
                 it = lp.iter
-                b_ok, b_how = bounded_iter(it)
+                b_ok, b_how = bounded_iter(it, fn)
                 if b_ok:
                     bounded, how = True, b_how
                 elif isinstance(it, ast.Call) and isinstance(
@@ -298,7 +301,7 @@ def run(ctx: Context, rep) -> None:
                     a, (ast.For, ast.AsyncFor, ast.While))]
                 inner = lps[0] if lps else None
                 ok = inner is not None and not isinstance(inner, ast.While) and \
-                    bounded_iter(inner.iter)[0]
+                    bounded_iter(inner.iter, fn)[0]
                 rep.ob("C14.bound", ok, loc=fn.loc(c), where=fn.qualname,
                        construct=short(c) + " in " + (short(inner.iter, 50)
                                                       if ok else "<unbounded>"),
